@@ -64,6 +64,16 @@ pub struct IoState {
     wwaker: Option<Waker>,
     pub written: Vec<u8>,
     pub shutdown: bool,
+    /// the server dropped its end without ever running a connection on it
+    /// (failed setup, refused at the connection limit) or after closing
+    pub dropped: bool,
+    /// largest number of octets one `poll_write` accepts (0 = everything):
+    /// a transport with a small send buffer
+    chunk: usize,
+    /// framing of what has been accepted so far, so that a credit is
+    /// charged once per frame however many partial writes it takes
+    whdr: Vec<u8>,
+    wleft: usize,
 }
 
 /// The server's end of a mock connection.
@@ -74,8 +84,13 @@ pub struct MockIo(Arc<Mutex<IoState>>);
 pub struct IoHandle(Arc<Mutex<IoState>>);
 
 pub fn mock_io(credit: Option<usize>) -> (MockIo, IoHandle) {
+    mock_io_chunked(credit, 0)
+}
+
+pub fn mock_io_chunked(credit: Option<usize>, chunk: usize) -> (MockIo, IoHandle) {
     let st = Arc::new(Mutex::new(IoState {
         credit,
+        chunk,
         ..Default::default()
     }));
     (MockIo(st.clone()), IoHandle(st))
@@ -115,6 +130,17 @@ impl IoHandle {
     pub fn is_shutdown(&self) -> bool {
         self.0.lock().unwrap().shutdown
     }
+    /// what the peer sees as "the server closed the connection"
+    pub fn is_closed(&self) -> bool {
+        let s = self.0.lock().unwrap();
+        s.shutdown || s.dropped
+    }
+}
+
+impl Drop for MockIo {
+    fn drop(&mut self) {
+        self.0.lock().unwrap().dropped = true;
+    }
 }
 
 impl AsyncRead for MockIo {
@@ -149,16 +175,34 @@ impl AsyncWrite for MockIo {
         if s.aborted {
             return Poll::Ready(Err(io::ErrorKind::BrokenPipe.into()));
         }
-        match s.credit {
-            None => {}
-            Some(0) => {
-                s.wwaker = Some(cx.waker().clone());
-                return Poll::Pending;
-            }
-            Some(ref mut c) => *c -= 1,
+        if buf.is_empty() {
+            return Poll::Ready(Ok(0));
         }
-        s.written.extend_from_slice(buf);
-        Poll::Ready(Ok(buf.len()))
+        // a credit is needed to begin a frame, not to continue one
+        if s.whdr.is_empty() && s.wleft == 0 {
+            match s.credit {
+                None => {}
+                Some(0) => {
+                    s.wwaker = Some(cx.waker().clone());
+                    return Poll::Pending;
+                }
+                Some(ref mut c) => *c -= 1,
+            }
+        }
+        let n = if s.chunk == 0 { buf.len() } else { buf.len().min(s.chunk) };
+        for &b in &buf[..n] {
+            if s.wleft > 0 {
+                s.wleft -= 1;
+            } else {
+                s.whdr.push(b);
+                if s.whdr.len() == 2 {
+                    s.wleft = u16::from_be_bytes([s.whdr[0], s.whdr[1]]) as usize;
+                    s.whdr.clear();
+                }
+            }
+        }
+        s.written.extend_from_slice(&buf[..n]);
+        Poll::Ready(Ok(n))
     }
     fn poll_flush(self: Pin<&mut Self>, _: &mut Context<'_>) -> Poll<io::Result<()>> {
         Poll::Ready(Ok(()))
@@ -173,7 +217,7 @@ impl AsyncWrite for MockIo {
 
 #[derive(Default)]
 pub struct ListenState {
-    pending: VecDeque<(MockIo, SocketAddr)>,
+    pending: VecDeque<(MockIo, SocketAddr, bool)>,
     waker: Option<Waker>,
 }
 
@@ -182,8 +226,13 @@ pub struct MockListener(Arc<Mutex<ListenState>>);
 
 impl MockListener {
     pub fn connect(&self, io: MockIo, addr: SocketAddr) {
+        self.connect_with(io, addr, true)
+    }
+    /// `setup_ok = false`: the connection is accepted but its setup future
+    /// (think TLS handshake) fails
+    pub fn connect_with(&self, io: MockIo, addr: SocketAddr, setup_ok: bool) {
         let mut s = self.0.lock().unwrap();
-        s.pending.push_back((io, addr));
+        s.pending.push_back((io, addr, setup_ok));
         if let Some(w) = s.waker.take() {
             w.wake();
         }
@@ -201,7 +250,14 @@ impl AsyncAccept for MockListener {
     ) -> Poll<io::Result<(Self::Future, SocketAddr)>> {
         let mut s = self.0.lock().unwrap();
         match s.pending.pop_front() {
-            Some((io, addr)) => Poll::Ready(Ok((ready(Ok(io)), addr))),
+            Some((io, addr, true)) => Poll::Ready(Ok((ready(Ok(io)), addr))),
+            Some((io, addr, false)) => {
+                drop(io);
+                Poll::Ready(Ok((
+                    ready(Err(io::Error::new(io::ErrorKind::InvalidData, "handshake failed"))),
+                    addr,
+                )))
+            }
             None => {
                 s.waker = Some(cx.waker().clone());
                 Poll::Pending
